@@ -21,7 +21,7 @@
 // step takes the index it yields.
 // ---------------------------------------------------------------------------------------------
 
-use crate::schema::self_referential::__verif_schema_helper::{record_of, N_LONG, RECORD_ABC, RECORD_ANC, RECORD_LLL};
+use crate::schema::self_referential::__verif_schema_helper::{record_of, N_LONG, N_NULL, RECORD_ABC, RECORD_ANC, RECORD_LLL};
 use crate::ser::__verif_ser_cells::*;
 use std::mem::ManuallyDrop;
 
@@ -274,6 +274,78 @@ step_harness!(c13_step_c2_b00_i2, cur = 2, has = [false, false], idx = 2, |_b1, 
 
 /// end() from a state shape, on record R2 { a: long, b: null, c: long } or R { a: long, b: ["long","null"], c: long }.
 /// `$expect`: Some((bytes, n)) = Ok with exactly bytes[..n] written by end(); None = Err.
+// ---- zero-length encodings: an early field whose encoding is EMPTY (null) must still be recorded as presented
+
+//@ harness: c13_step_null_field_presented_early
+//@   props: C13, C14
+//@   tier: quick
+//@   kind: bounded(record {a: long, b: null, c: long}; state: nothing written, nothing buffered; field b (null: EMPTY encoding) presented before a, then presented again)
+//@   fn: ser::serializer::struct_or_map::serialize_record_value (early field whose encoding is zero bytes)
+//@   domain: the stated state shape; pool empty or holding one recycled buffer
+//@   post: the early field is recorded as presented although its encoding is empty (buffers[1] is Some(empty)), nothing is written; presenting it a second time is Err; pooled buffers empty
+#[kani::proof]
+#[kani::unwind(5)]
+#[kani::stub(alloc::fmt::format, stub_format)]
+#[kani::stub(DatumSerializer::serialize_union_unnamed, DatumSerializer::verif_unreachable_union_arm)]
+fn c13_step_null_field_presented_early() {
+	let record = record_of(&RECORD_ANC);
+	let mut config = ManuallyDrop::new(SerializerConfig::new_with_optional_schema(None));
+	if kani::any() {
+		config.buffers.field_reordering_buffers.push(Vec::with_capacity(4));
+	}
+	let mut state = ManuallyDrop::new(SerializerState::from_writer(Vec::new(), &mut config));
+	let mut rs = ManuallyDrop::new(RecordState {
+		expected_fields: record.fields[0..].iter(),
+		current_idx: 0,
+		buffers: Vec::new(),
+		record,
+	});
+	let r = serialize_record_value(&mut state, &mut rs, 1, &N_NULL, &());
+	assert!(r.is_ok() && state.writer.is_empty() && rs.current_idx == 0, "OBL C13.step.early_field_is_buffered_not_written");
+	assert!(matches!(rs.buffers.get(1), Some(Some(b)) if b.is_empty()), "OBL C13.step.early_field_with_empty_encoding_is_still_recorded_as_presented");
+	std::mem::forget(r);
+	// presenting it again is a duplicate
+	let r2 = serialize_record_value(&mut state, &mut rs, 1, &N_NULL, &());
+	assert!(r2.is_err(), "OBL C13.step.field_presented_twice_is_err");
+	std::mem::forget(r2);
+	let cfg: &SerializerConfig<'_> = &state.config;
+	assert!(pool_wf(cfg), "OBL C14.pool.every_pooled_buffer_is_empty_after_the_step");
+}
+
+//@ harness: c13_step_flushes_empty_buffered_successor
+//@   props: C13, C14
+//@   tier: quick
+//@   kind: bounded(record {a: long, b: null, c: long}; state: nothing written, b buffered with its EMPTY encoding; a presented)
+//@   fn: ser::serializer::struct_or_map::serialize_record_value (flush of a contiguous successor whose buffer is empty)
+//@   domain: the stated state shape, value of a symbolic (one-byte varint)
+//@   post: a is written, the empty successor is flushed (current_idx = 2, expected_fields in step), its buffer goes back to the pool empty
+#[kani::proof]
+#[kani::unwind(5)]
+#[kani::stub(alloc::fmt::format, stub_format)]
+#[kani::stub(DatumSerializer::serialize_union_unnamed, DatumSerializer::verif_unreachable_union_arm)]
+fn c13_step_flushes_empty_buffered_successor() {
+	let record = record_of(&RECORD_ANC);
+	let mut config = ManuallyDrop::new(SerializerConfig::new_with_optional_schema(None));
+	let mut state = ManuallyDrop::new(SerializerState::from_writer(Vec::new(), &mut config));
+	let mut rs = ManuallyDrop::new(RecordState {
+		expected_fields: record.fields[0..].iter(),
+		current_idx: 0,
+		buffers: vec![None, Some(Vec::with_capacity(4)), None],
+		record,
+	});
+	let v: i64 = kani::any();
+	kani::assume(v >= -64 && v < 64);
+	let e = spec_enc_long(v).0[0];
+	let r = serialize_record_value(&mut state, &mut rs, 0, &N_LONG, &v);
+	assert!(r.is_ok(), "OBL C13.step.next_expected_field_is_accepted");
+	assert!(state.writer.len() == 1 && state.writer[0] == e, "OBL C13.step.field_then_contiguous_buffered_successors_in_schema_order");
+	assert!(rs.current_idx == 2, "OBL C13.step.current_idx_advances_past_flushed_fields");
+	assert!(rs.expected_fields.as_slice().len() == 1, "OBL C13.step.expected_fields_in_step_with_current_idx");
+	std::mem::forget(r);
+	let cfg: &SerializerConfig<'_> = &state.config;
+	assert!(pool_wf(cfg), "OBL C14.pool.every_pooled_buffer_is_empty_after_the_step");
+}
+
 macro_rules! end_harness {
 	($name:ident, record = $rec:expr, cur = $cur:expr, $buffers:expr, expect = $expect:expr) => {
 		#[kani::proof]
